@@ -338,7 +338,7 @@ specfun("is_locked", ["l"], "typed(l.locked_flag, 'bool')")
 specfun("last_user_call_returned", ["f", "r"], "True")
 
 # ------------------------------------------------------------------------------------------------ log_call (C18)
-contract(A + "log_call.logging_wrapper", props=["C18"], types={"args": "tuple", "kwargs": "dict"}, returns="Any",
+contract(A + "log_call.logging_wrapper", props=["C18"], shards=8, types={"args": "tuple", "kwargs": "dict"}, returns="Any",
          free={"wrapped_function": "role:UserCode", "action_type": "Any", "include_args": "Opt[list[str]]", "include_result": "bool"},
          ghosts={"RET": "Any", "EXC": "Any", "NCALLS": "int", "BOUND": "Any", "STARTF": "Any", "ADDED": "bool", "CARGS": "seq", "CKW": "Any", "INSIDE": "Any"},
          ghost_defaults={"NCALLS": "0", "ADDED": "False"},
